@@ -420,7 +420,7 @@ func TestC20_P_PathOrder(t *testing.T) {
 func TestC20_P_HandmadeFileOrder(t *testing.T) {
 	ev := newEvid(t, "case = hand-assembled well-formed file DAG whose chunks may be empty (see C06), full sequential read / preload / entity walk on a fresh node, twice; oracle = independent pre-order walk; non-trivial = DAG with an empty chunk; distinct by (chunk pattern, leaf kind, levels, op)")
 	rapid.Check(t, func(t *rapid.T) {
-		fc := genHandFileDAG(t, false)
+		fc := genHandFileDAGOpt(t, handOpts{SpareBlockSize: true, LyingFileSize: true})
 		opName := rapid.SampledFrom([]string{"AsBytes", "unixfs-preload"}).Draw(t, "op")
 		ls := fc.St.LinkSystem()
 		op := func(pn datamodel.Node) error {
